@@ -9,6 +9,7 @@ import (
 	"sort"
 	"strconv"
 	"strings"
+	"sync"
 
 	"wa-lang.org/wa/internal/native/abi"
 	"wa-lang.org/wa/internal/native/riscv"
@@ -611,6 +612,8 @@ type rvRunner struct {
 	agg      *aggregator
 	thorough bool
 	llvm     bool
+	qmu      sync.Mutex
+	queue    []llvmCase
 }
 
 // rvCtx is the per-work-item state of the hot loop (no locks, no allocation on the good path).
@@ -692,6 +695,10 @@ func (cx *rvCtx) check(arg *abi.AsArgument, x uint32, order int64) (good bool) {
 		cx.report("riscv", "wadecode", f, c, x, arg, &exp, back.String(), order)
 		return
 	}
+	if f, ok := canonicalImm(&back, &got); !ok {
+		cx.report("riscv", "wadecode", f, "imm:non-canonical-signedness", x, arg, &exp, back.String()+" (x/arch: "+got.String()+")", order)
+		return
+	}
 	if !cx.distinct[got.Op] {
 		cx.distinct[got.Op] = true
 		cx.rr.r.Distinct("riscv|" + got.Op)
@@ -715,9 +722,13 @@ func rvArgString(a *abi.AsArgument) string {
 
 // llvmCase is one encoding queued for the llvm-mc second opinion.
 type llvmCase struct {
-	x                uint32
-	rd, r1, r2, r3   abi.RegType
-	imm              int32
+	x              uint32
+	rd, r1, r2, r3 abi.RegType
+	imm            int32
+	as             abi.As
+	xlen           int8
+	hasImm         bool
+	order          int32
 }
 
 func (c llvmCase) arg() abi.AsArgument {
@@ -785,7 +796,7 @@ func (rr *rvRunner) runItem(it rvItem) {
 		}
 		good := cx.check(arg, x, order)
 		if good && toLLVM && rr.llvm {
-			lc = append(lc, llvmCase{x, arg.Rd, arg.Rs1, arg.Rs2, arg.Rs3, arg.Imm})
+			lc = append(lc, llvmCase{x, arg.Rd, arg.Rs1, arg.Rs2, arg.Rs3, arg.Imm, it.as, int8(it.xlen), sh.hasImm, int32(len(lc))})
 		}
 	}
 	// a reduced boundary list for the register-tuple product
@@ -882,65 +893,112 @@ func (rr *rvRunner) runItem(it rvItem) {
 		}
 	}
 	if rr.llvm && len(lc) > 0 {
-		rr.llvmCheck(it, lc)
+		rr.enqueueLLVM(lc)
 	}
 }
 
-func (rr *rvRunner) llvmCheck(it rvItem, lc []llvmCase) {
-	// dedupe by encoding
-	seen := map[uint32]bool{}
-	var encs []uint32
-	var cases []llvmCase
-	for _, c := range lc {
-		if !seen[c.x] {
-			seen[c.x] = true
-			encs = append(encs, c.x)
-			cases = append(cases, c)
-		}
+// llvm-mc is started once per large batch (process start-up dominates otherwise).
+const rvLLVMBatch = 1 << 20
+
+func (rr *rvRunner) enqueueLLVM(lc []llvmCase) {
+	rr.qmu.Lock()
+	rr.queue = append(rr.queue, lc...)
+	var batch []llvmCase
+	if len(rr.queue) >= rvLLVMBatch {
+		batch, rr.queue = rr.queue, nil
 	}
-	triple := "riscv64"
-	if it.xlen == 32 {
-		triple = "riscv32"
+	rr.qmu.Unlock()
+	if batch != nil {
+		rr.llvmCheck(batch)
 	}
-	texts, err := llvmDisasmRV(triple, encs)
-	if err != nil {
-		rr.r.HarnessError("llvm-mc: %v", err)
+}
+
+// flushLLVM processes what is left in the queue, split over the workers.
+func (rr *rvRunner) flushLLVM() {
+	rr.qmu.Lock()
+	q := rr.queue
+	rr.queue = nil
+	rr.qmu.Unlock()
+	if len(q) == 0 {
 		return
 	}
-	mnem := riscv.AsString(it.as, "")
-	arch := "riscv"
-	for i, c := range cases {
-		rr.r.Transitions.Add(1)
-		arg := c.arg()
-		exp := rvExpected(it.as, &arg, it.shape.hasImm)
-		group := fmt.Sprintf("opcode-%07b", c.x&0x7f)
-		report := func(arch, field, class, gotStr string) {
-			rr.agg.add(&candidate{arch: arch, group: group, mnem: mnem, oracle: "llvm", field: field, class: class, order: int64(i),
-				what:   fmt.Sprintf("Encode%d(%s %s) = %08x; asked: [%s]; llvm-mc -triple=%s says: [%s]", it.xlen, mnem, rvArgString(&arg), c.x, exp.String(), triple, gotStr),
-				replay: map[string]any{"arch": "riscv", "xlen": it.xlen, "as": mnem, "rd": int(arg.Rd), "rs1": int(arg.Rs1), "rs2": int(arg.Rs2), "rs3": int(arg.Rs3), "imm": arg.Imm, "encoding": fmt.Sprintf("%08x", c.x)}})
+	n := mc.NWorkers()
+	per := (len(q) + n - 1) / n
+	mc.ParallelFor(n, func(i int) {
+		lo, hi := i*per, min((i+1)*per, len(q))
+		if lo < hi {
+			rr.llvmCheck(q[lo:hi])
 		}
-		if texts[i] == "" {
-			if it.xlen == 32 {
-				// RV64-only encodings are reported once under the riscv32 key by check()
-				var b [4]byte
-				binary.LittleEndian.PutUint32(b[:], c.x)
-				if inst, err := riscv64asm.Decode(b[:]); err == nil && rv64Only[strings.ToLower(inst.Op.String())] {
-					continue
-				}
-				if c.x>>25&1 != 0 && c.x&0x7f == 0x13 {
-					continue // shamt bit 5: reported by check()
-				}
+	})
+}
+
+func (rr *rvRunner) llvmCheck(lc []llvmCase) {
+	for _, xlen := range []int8{64, 32} {
+		// dedupe by encoding (per mnemonic: the same encoding reached from two mnemonics is two cases)
+		type dk struct {
+			x  uint32
+			as abi.As
+		}
+		seen := map[dk]bool{}
+		var encs []uint32
+		var cases []llvmCase
+		for _, c := range lc {
+			if c.xlen != xlen {
+				continue
 			}
-			report(arch, "op", "undecodable", "invalid instruction encoding")
+			k := dk{c.x, c.as}
+			if !seen[k] {
+				seen[k] = true
+				encs = append(encs, c.x)
+				cases = append(cases, c)
+			}
+		}
+		if len(cases) == 0 {
 			continue
 		}
-		got, ok := rvFromLLVM(texts[i], c.x)
-		if !ok {
-			report(arch, "op", "unparsed:"+got.Op, texts[i])
-			continue
+		triple := "riscv64"
+		if xlen == 32 {
+			triple = "riscv32"
 		}
-		if f, cl := diff(&exp, &got); f != "" {
-			report(arch, f, cl, strings.Join(strings.Fields(texts[i]), " "))
+		texts, err := llvmDisasmRV(triple, encs)
+		if err != nil {
+			rr.r.HarnessError("llvm-mc: %v", err)
+			return
+		}
+		rr.r.Transitions.Add(int64(len(cases)))
+		for i, c := range cases {
+			arg := c.arg()
+			mnem := riscv.AsString(c.as, "")
+			report := func(field, class, gotStr string) {
+				exp := rvExpected(c.as, &arg, c.hasImm)
+				rr.agg.add(&candidate{arch: "riscv", group: rvGroupName[c.x&0x7f], mnem: mnem, oracle: "llvm", field: field, class: class, order: int64(c.order),
+					what:   fmt.Sprintf("Encode%d(%s %s) = %08x; asked: [%s]; llvm-mc -triple=%s says: [%s]", xlen, mnem, rvArgString(&arg), c.x, exp.String(), triple, gotStr),
+					replay: map[string]any{"arch": "riscv", "xlen": xlen, "as": mnem, "rd": int(arg.Rd), "rs1": int(arg.Rs1), "rs2": int(arg.Rs2), "rs3": int(arg.Rs3), "imm": arg.Imm, "encoding": fmt.Sprintf("%08x", c.x)}})
+			}
+			if texts[i] == "" {
+				if xlen == 32 {
+					// RV64-only encodings are reported once under the riscv32 key by check()
+					var b [4]byte
+					binary.LittleEndian.PutUint32(b[:], c.x)
+					if inst, err := riscv64asm.Decode(b[:]); err == nil && rv64Only[strings.ToLower(inst.Op.String())] {
+						continue
+					}
+					if c.x>>25&1 != 0 && c.x&0x7f == 0x13 {
+						continue // shamt bit 5: reported by check()
+					}
+				}
+				report("op", "undecodable", "invalid instruction encoding")
+				continue
+			}
+			got, ok := rvFromLLVM(texts[i], c.x)
+			if !ok {
+				report("op", "unparsed:"+got.Op, texts[i])
+				continue
+			}
+			exp := rvExpected(c.as, &arg, c.hasImm)
+			if f, cl := diff(&exp, &got); f != "" {
+				report(f, cl, strings.Join(strings.Fields(texts[i]), " "))
+			}
 		}
 	}
 }
